@@ -240,7 +240,12 @@ static void run_case(long idx)
             size_t const rr = ZSTD_decompressStream(d, &o, &in);
             if (ZSTD_isError(rr)) { v_viol("hint:decoder-fails-when-following-hints", "%s: %s", desc, ZSTD_getErrorName(rr)); ok = 0; break; }
             ip += in.pos; avail -= in.pos; op += o.pos; hint = rr;
-            if (rr == 1 && avail == 0 && ip == ctotal - 1) hostage = 1;
+            if (rr == 1 && avail == 1 && ip == ctotal - 1 && o.pos == o.size) { hostage = 1;      /* everything was supplied, the decoder handed the last byte back: output is pending */
+                if (vr_chance(&r, 1, 2)) {   /* calls without any input while the decoder withholds the last byte, until nothing more comes out (legal; it must keep asking for 1 byte and lose nothing) */
+                    int stop = 0; for (int q = 0; q < 100000 && !stop; q++) { ZSTD_inBuffer e = { src2 + ip, 0, 0 }; ZSTD_outBuffer o2 = { ob + op, V_MIN(oc, total + 16 - op), 0 }; size_t const r2 = ZSTD_decompressStream(d, &o2, &e);
+                        if (ZSTD_isError(r2)) { if (ZSTD_getErrorCode(r2) != ZSTD_error_noForwardProgress_inputEmpty) { v_viol("hint:decoder-fails-on-an-empty-call-while-holding-the-last-byte", "%s: %s", desc, ZSTD_getErrorName(r2)); ok = 0; } stop = 2; break; }
+                        op += o2.pos; hint = r2; if (r2 == 0) { v_viol("hint:completion-reported-before-the-last-byte-was-consumed", "%s", desc); ok = 0; stop = 1; } if (o2.pos == 0) stop = 1; }
+                    v_stat("hint_runs_with_empty_calls_at_hostage_point", 1); if (stop == 2) ok = 0; if (!ok) break; } }
             if (rr == 0) break;
             if (++guard > 50000000) { v_viol("hint:no-end", "%s", desc); ok = 0; break; }
         }
